@@ -24,6 +24,28 @@ std::vector<std::string> init_mathml_printer_names()
     return names;
 }
 
+// character data: the markup characters of a name must not reach the output
+static std::string xml_escape(const std::string &name)
+{
+    std::string out;
+    for (char ch : name) {
+        switch (ch) {
+            case '&':
+                out += "&amp;";
+                break;
+            case '<':
+                out += "&lt;";
+                break;
+            case '>':
+                out += "&gt;";
+                break;
+            default:
+                out += ch;
+        }
+    }
+    return out;
+}
+
 void MathMLPrinter::bvisit(const Basic &x)
 {
     throw SymEngineException("Error: not supported");
@@ -31,7 +53,7 @@ void MathMLPrinter::bvisit(const Basic &x)
 
 void MathMLPrinter::bvisit(const Symbol &x)
 {
-    s << "<ci>" << x.get_name() << "</ci>";
+    s << "<ci>" << xml_escape(x.get_name()) << "</ci>";
 }
 
 void MathMLPrinter::bvisit(const Integer &x)
@@ -293,7 +315,7 @@ void MathMLPrinter::bvisit(const UnevaluatedExpr &x)
 
 void MathMLPrinter::bvisit(const FunctionSymbol &x)
 {
-    s << "<apply><ci>" << x.get_name() << "</ci>";
+    s << "<apply><ci>" << xml_escape(x.get_name()) << "</ci>";
     const auto &args = x.get_args();
     for (const auto &arg : args) {
         arg->accept(*this);
